@@ -758,13 +758,25 @@ func (e *SpecEnv) callSpec(n SCall) (SVal, error) {
 		}
 		elem := v.T.Underlying().(*types.Slice).Elem()
 		lfs := leaves(elem)
-		if len(lfs) != 1 {
-			return SVal{}, fmt.Errorf("elemsof needs scalar elements")
+		want := ""
+		if len(n.Args) > 1 { // elemsof(s, "Field.Path"): the column of one scalar field of struct elements
+			fl, ok := n.Args[1].(SStrLit)
+			if !ok {
+				return SVal{}, fmt.Errorf("elemsof field path must be a string")
+			}
+			want = "." + fl.V
+		} else if len(lfs) != 1 {
+			return SVal{}, fmt.Errorf("elemsof needs scalar elements or a field path")
 		}
 		p := PtrV{Base: sv.Arr, Obj: elem, Arr: true}
-		name, _ := compName(p, lfs[0].Path)
-		comp := u.m.comp(e.st, name, u.m.compSort(true, lfs[0].Sort))
-		return SVal{V: Scalar{Select(comp, sv.Arr)}}, nil
+		for _, lf := range lfs {
+			if want == "" || lf.Path == want {
+				name, _ := compName(p, lf.Path)
+				comp := u.m.comp(e.st, name, u.m.compSort(true, lf.Sort))
+				return SVal{V: Scalar{Select(comp, sv.Arr)}}, nil
+			}
+		}
+		return SVal{}, fmt.Errorf("elemsof: no scalar field %q", want)
 	case "offof":
 		v, err := e.eval(n.Args[0])
 		if err != nil {
